@@ -59,7 +59,7 @@ STATS = {"efbig_appends": 0, "damaged_archives_seen": 0, "slotdir_failures": 0, 
          "rotations_completed": 0}
 
 PATTERNS = ["a.{}.log", "arch/a.{}.log", "{}/a.log", "arch/{}/a.log"]
-GZ_PATTERNS = ["z/a.{}.gz", "a.{}.gz", "z/{}/a.gz"]
+GZ_PATTERNS = ["z/a.{}.gz", "a.{}.gz", "z/{}/a.gz", "zs/a.{}.zst", "a.{}.zst"]
 DIR_PATTERNS = ["arch/{}/a.log", "{}/a.log"]          # {} in a directory component
 DIR_GZ_PATTERNS = ["z/{}/a.gz"]
 
